@@ -25,3 +25,12 @@ func (root *Root) VerifSubscribers() []Subscriber {
 	}
 	return subs
 }
+
+// VerifSubLockHeld reports whether the registry lock is held by someone.
+func (root *Root) VerifSubLockHeld() bool {
+	if root.subLock.TryLock() {
+		root.subLock.Unlock()
+		return false
+	}
+	return true
+}
